@@ -393,6 +393,27 @@ func (c *Ctx) ruleC19() {
 	for _, f := range c.libFns() {
 		pk := f.Pkg
 		inspectWithStack(f.Decl.Body, func(n ast.Node, stack []ast.Node) bool {
+			// the field set in a composite literal of the core: only a map made on the spot is one ban set per core
+			if kv, isKV := n.(*ast.KeyValueExpr); isKV {
+				if kid, isId := kv.Key.(*ast.Ident); isId && pk.TypesInfo.Uses[kid] == ban {
+					fresh := false
+					switch v := ast.Unparen(kv.Value).(type) {
+					case *ast.CallExpr:
+						if id, ok := v.Fun.(*ast.Ident); ok && id.Name == "make" {
+							fresh = true
+						}
+					case *ast.CompositeLit:
+						fresh = true
+					}
+					key := fmt.Sprintf("use of bannedDirectives in %s (literal)", f.Name())
+					if fresh || isNil(pk, kv.Value) {
+						r.Ok("C19-BAN-READ-ONLY", key, "the core starts with a map of its own (or none)", c.pos(kv.Pos()))
+					} else {
+						r.Bad("C19-BAN-READ-ONLY", key, "a new core is given an existing map as its ban set ("+exprString(kv.Value)+"): the bans that WithBannedDirectives writes for one build are seen by every other build that shares it", c.pos(kv.Pos()))
+					}
+				}
+				return true
+			}
 			sel, ok := n.(*ast.SelectorExpr)
 			if !ok || fieldSel(pk, sel) != ban {
 				return true
